@@ -251,6 +251,15 @@ class Ref:
                 res = [min(hi, max(lo, mbqm(int(v) - int(zi), q, sh) + int(zo))) for v in flat]
                 val[outs[0]] = np.array(res, dtype=np.int64).reshape(val[ins[0]].shape)
             elif k in ("ADD", "SUB", "MUL", "MINIMUM", "MAXIMUM"):
+                if k == "MAXIMUM":
+                    # MAXIMUM(x, MUL(x, constant)): Vela compiles the pair as LeakyReLU / ABS, i.e. through a table for 8-bit
+                    # data: one step allowed, and only as the last operator
+                    for a_, b_ in ((ins[0], ins[1]), (ins[1], ins[0])):
+                        prod = [op2 for op2 in self.sg["operators"] if b_ in op2["outputs"] and op2["opcode"] == "MUL"]
+                        if prod and a_ in prod[0]["inputs"] and any(self.const(i2) is not None for i2 in prod[0]["inputs"] if i2 != a_):
+                            if any(outs[0] in op3["inputs"] for op3 in self.sg["operators"]):
+                                raise Unsupported("MUL+MAXIMUM leaky ReLU feeding another operator")
+                            self.has_table_op = True
                 val[outs[0]] = self.elementwise(k, ins, outs[0], o, val)
             elif k in ("LOGISTIC", "TANH", "LEAKY_RELU", "HARD_SWISH"):
                 # table-based on the NPU: the property allows one step, which is only meaningful when nothing computes
@@ -264,13 +273,37 @@ class Ref:
                 val[outs[0]] = self.table_op(k, ins[0], outs[0], o, val)
             elif k == "PRELU":
                 val[outs[0]] = self.prelu(ins, outs[0], val)
-            elif k in ("RELU", "RELU6"):
+            elif k == "SPLIT":
+                axis = self.const(ins[0])
+                if axis is None:
+                    raise Unsupported("dynamic split axis")
+                parts = np.split(val[ins[1]], int(o.get("NumSplits", len(outs))), axis=int(np.asarray(axis).reshape(-1)[0]))
+                for oi, pv in zip(outs, parts):
+                    if self.quant(oi) != self.quant(ins[1]):
+                        raise Unsupported("requantising split")
+                    val[oi] = pv
+            elif k == "ABS":
+                # elementwise.cc AbsEvalQuantized: |x - zp_in| rescaled by s_in / s_out, + zp_out
+                ty = self.tens(outs[0])["type"]
+                if ty not in QRANGE or self.tens(ins[0])["type"] != ty:
+                    raise Unsupported("ABS type")
+                (si,), (zi,) = [x_[:1] for x_ in self.quant(ins[0])]
+                (so,), (zo,) = [x_[:1] for x_ in self.quant(outs[0])]
+                lo, hi = QRANGE[ty]
+                xv = np.abs(val[ins[0]].astype(np.int64) - int(zi))
+                if float(si) == float(so):
+                    r_ = xv + int(zo)
+                else:
+                    m_, s_ = quantize_multiplier(float(np.float32(si)) / float(np.float32(so)))
+                    r_ = np.array([mbqm(int(v), m_, s_) for v in xv.reshape(-1)], dtype=np.int64).reshape(xv.shape) + int(zo)
+                val[outs[0]] = np.clip(r_, lo, hi)
+            elif k in ("RELU", "RELU6", "RELU_N1_TO_1"):
                 t = self.tens(outs[0])
                 (sc,), (zp,) = [x[:1] for x in self.quant(outs[0])]
                 (sci,), (zpi,) = [x[:1] for x in self.quant(ins[0])]
                 if sc != sci or zp != zpi:
                     raise Unsupported("requantising relu")
-                lo, hi = act_range(1 if k == "RELU" else 3, t["type"], sc, zp)
+                lo, hi = act_range({"RELU": 1, "RELU_N1_TO_1": 2, "RELU6": 3}[k], t["type"], sc, zp)
                 val[outs[0]] = np.clip(val[ins[0]], lo, hi)
             else:
                 raise Unsupported(k)
